@@ -5,6 +5,7 @@ import (
 	"fmt"
 	"strconv"
 	"strings"
+	"time"
 
 	"github.com/lindb/lindb/kv"
 	"github.com/lindb/lindb/kv/table"
@@ -53,7 +54,14 @@ func (h *hist) doSplitEdit(name string, toks []string, chunks []func()) {
 	evCh := make(chan string)
 	resumeCh := make(chan struct{})
 	doneCh := make(chan done)
+	// inWindow: the committer is parked and the main goroutine runs the other operations; their commits go
+	// through the same wrapped family version, and their schedule points are not parked (one level only).
+	// Written by the main goroutine only while the committer is parked (ordered by the channel operations).
+	inWindow := false
 	cb := func(point string, locked bool) {
+		if inWindow {
+			return
+		}
 		if locked {
 			h.c.Branch("commit-point:" + point + ":under-vs.mutex")
 			return
@@ -88,12 +96,20 @@ func (h *hist) doSplitEdit(name string, toks []string, chunks []func()) {
 			if len(chunks) > 0 && !h.failed {
 				c := chunks[0]
 				chunks = chunks[1:]
+				inWindow = true
 				c()
+				inWindow = false
 				h.c.Branch("region:other-committers-inside-commit")
 			}
 			before = h.beginOp("cend")
 			contentBefore = h.lastObs
 			resumeCh <- struct{}{}
+		case <-time.After(120 * time.Second):
+			// cannot happen while exactly one goroutine runs at a time; reported instead of hanging the run
+			h.failed = true
+			h.c.Fail("commit-schedule-stuck", fmt.Sprintf("commit of family %s neither reached a schedule point nor returned within 120 s", name))
+			h.c.Op("cend "+name, "stuck")
+			return
 		case d := <-doneCh:
 			if d.panic != nil {
 				h.failed = true
